@@ -718,6 +718,128 @@ fn history(family: &str, seed: u64, idx: usize, thorough: bool, out: &mut impl W
                 c.s.trace.push(json!({"ev":"late_join","peer":id,"ok":ok}));
             }
         }
+        "promo" => {
+            const TYS: [Ty; 4] = [Ty::A, Ty::B, Ty::E, Ty::V];
+            fn op(c: &mut Ctx, w: u32) {
+                match c.rng.below(8) {
+                    0 | 1 | 2 => {
+                        let h = c.fresh();
+                        let mut comps: Vec<CVal> = vec![];
+                        for t in TYS {
+                            if c.rng.chance(1, 3) {
+                                comps.push(small_val(&mut c.rng, t));
+                            }
+                        }
+                        let parent = if !c.live.is_empty() && c.rng.chance(1, 3) { Some(*c.rng.pick(&c.live.clone())) } else { None };
+                        c.s.spawn(w, h, true, &comps, parent);
+                        c.live.push(h);
+                    }
+                    3 | 4 | 5 => {
+                        if !c.live.is_empty() {
+                            let h = *c.rng.pick(&c.live.clone());
+                            let t = *c.rng.pick(&TYS);
+                            let v = small_val(&mut c.rng, t);
+                            c.s.write(w, h, &v, &[]);
+                        }
+                    }
+                    6 => {
+                        if c.live.len() >= 2 {
+                            let a = *c.rng.pick(&c.live.clone());
+                            let b = *c.rng.pick(&c.live.clone());
+                            if a != b {
+                                c.s.set_parent(w, a, b);
+                            }
+                        }
+                    }
+                    _ => {
+                        if c.live.len() > 2 {
+                            let i = c.rng.below(c.live.len());
+                            let h = c.live[i];
+                            if c.s.despawn(w, h) {
+                                c.live.swap_remove(i);
+                            }
+                        }
+                    }
+                }
+            }
+            fn epochs(c: &mut Ctx, n: usize) {
+                for _ in 0..n {
+                    let w = c.any_peer();
+                    c.s.trace.push(json!({"ev":"epoch","writer":w}));
+                    for _ in 0..c.rng.range(1, 3) {
+                        op(c, w);
+                        if c.rng.chance(1, 2) {
+                            c.random_steps();
+                        }
+                    }
+                    let d = c.drain(80);
+                    c.s.trace.push(json!({"ev":"drain","quiescent":d.0,"rounds":d.1}));
+                }
+            }
+            let n0 = c.rng.range(1, 4);
+            epochs(&mut c, n0);
+            let promotions = if c.rng.chance(1, 4) { 2 } else { 1 };
+            let mut host: u32 = 0;
+            for _ in 0..promotions {
+                // every instance listens on its own port once it becomes host (all peers share one ip here)
+                for p in 0..c.peers() {
+                    let port = bsharness::session::free_udp_port(c.s.ip);
+                    c.s.set_port(p, port);
+                }
+                let k = c.rng.below(c.nclients as usize);
+                let ok = c.s.promote(host, k);
+                c.s.trace.push(json!({"ev":"promotion","host":host,"client_index":k,"sent":ok}));
+                // the hand-over, sometimes with the application still at work on some peer
+                let busy = c.rng.chance(1, 3);
+                let w = c.any_peer();
+                for _ in 0..c.rng.range(20, 40) {
+                    if busy && c.rng.chance(1, 4) {
+                        op(&mut c, w);
+                    }
+                    c.random_steps();
+                }
+                let d = c.drain(80);
+                c.s.trace.push(json!({"ev":"drain","quiescent":d.0,"rounds":d.1,"after_promotion":true}));
+                // who is host now?
+                let mut new_host = host;
+                for p in 0..c.peers() {
+                    if p != host && c.s.is_hosting(p) {
+                        new_host = p;
+                    }
+                }
+                c.s.trace.push(json!({"ev":"handover","old":host,"new":new_host}));
+                if new_host == host {
+                    break;
+                }
+                host = new_host;
+                let hp = c.s.port_of(host);
+                c.s.port = hp;
+                let n1 = c.rng.range(1, 3);
+                epochs(&mut c, n1);
+                // somebody joins the new host
+                if c.rng.chance(1, 2) {
+                    let shift = c.rng.below(5);
+                    let id = c.s.add_client(cfg_for(family), shift);
+                    c.nclients += 1;
+                    c.s.describe_peers();
+                    c.s.connect(id);
+                    c.s.trace.push(json!({"ev":"join_begin","peer":id,"writer":host}));
+                    let mut ok = false;
+                    for _ in 0..80 {
+                        c.lockstep(1);
+                        let last = c.s.trace.iter().rev().find(|v| v["ev"] == "frame" && v["peer"] == id).cloned();
+                        if let Some(v) = last {
+                            if v["state"]["client_state"] == "Connected" && v["state"]["sync_finished"].as_u64().unwrap_or(0) >= 1 {
+                                ok = true;
+                                break;
+                            }
+                        }
+                    }
+                    c.s.trace.push(json!({"ev":"late_join","peer":id,"ok":ok}));
+                    epochs(&mut c, 1);
+                }
+            }
+        }
         "join" => {
             const TYS: [Ty; 4] = [Ty::A, Ty::B, Ty::E, Ty::V];
             const AK: [AKind; 4] = [AKind::Mesh, AKind::Image, AKind::Audio, AKind::Material];
